@@ -563,9 +563,43 @@ func (h *c15hist) opParse(src *c15key) {
 	h.observeAll("NewKeyFromString", src)
 }
 
-func (h *c15hist) opNewExtendedKey() {
+// c15twinRef returns a key that is NOT src but shares some of its material:
+// the negated key (same X coordinate, other parity), the same key under
+// another chain code, or the same key and chain code at another position.
+func c15twinRef(r *vf.Rand, src *ref.XKey) (*ref.XKey, string) {
+	t := *src
+	kind := r.Intn(4)
+	negate := func() {
+		t.Pub = ref.Point{X: new(big.Int).Set(src.Pub.X), Y: new(big.Int).Sub(ref.SecP, src.Pub.Y)}
+		if src.Priv != nil {
+			t.Priv = new(big.Int).Sub(ref.SecN, src.Priv)
+		}
+	}
+	switch kind {
+	case 0:
+		negate()
+		return &t, "negated key, same chain code"
+	case 1:
+		negate()
+		copy(t.ChainCode[:], r.Bytes(32))
+		return &t, "negated key, other chain code"
+	case 2:
+		copy(t.ChainCode[:], r.Bytes(32))
+		return &t, "same key, other chain code"
+	}
+	t.Depth = byte(r.Range(0, 254))
+	t.ChildNum = r.Uint32()
+	copy(t.ParentFP[:], r.Bytes(4))
+	return &t, "same key and chain code, other depth / child number / parent fingerprint"
+}
+
+func (h *c15hist) opNewExtendedKey(src *c15key) {
 	c, r := h.c, h.r
 	x := c15randomRef(r, true)
+	twin := ""
+	if src != nil && src.ref.Pub.X != nil && src.ref.Pub.Y != nil && src.ref.Pub.Y.Sign() != 0 {
+		x, twin = c15twinRef(r, src.ref)
+	}
 	// fresh caller-owned buffers, retained to check erasure
 	version := append([]byte(nil), x.Version[:]...)
 	var key []byte
@@ -603,6 +637,15 @@ func (h *c15hist) opNewExtendedKey() {
 	h.note("-> key#%d", e.n)
 	c.Inc("op_NewExtendedKey")
 	h.observeNew("NewExtendedKey", e)
+	if twin != "" && !h.broken {
+		// the new key and the key it resembles are used alternately
+		h.note("(key#%d is a twin of key#%d: %s)", e.n, src.n, twin)
+		c.Inc("op_NewExtendedKey_twin_of_live_key")
+		h.observe("NewExtendedKey-twin", nil, src)
+		h.observe("NewExtendedKey-twin", nil, e)
+		h.observe("NewExtendedKey-twin", nil, src)
+		h.observe("NewExtendedKey-twin", nil, e)
+	}
 	h.observeAll("NewExtendedKey", nil)
 	if r.Chance(1, 12) && !h.broken {
 		// a second, short-lived key object over the SAME argument slices is
@@ -914,7 +957,11 @@ func c15historyCase(c *vf.Ctx, i int) {
 				h.opParse(nil)
 			}
 		case op < 22:
-			h.opNewExtendedKey()
+			if x != nil && r.Chance(1, 3) {
+				h.opNewExtendedKey(x)
+			} else {
+				h.opNewExtendedKey(nil)
+			}
 		case op < 44:
 			h.opChild(x)
 		case op < 60:
